@@ -4,7 +4,7 @@ CONSTANTS
   ChangeLists <- ChT
   Times <- T12
   MaxTotal = 1000
-  MaxLen = 3
+  MaxLen = 4
   FairOnly = FALSE
 INIT Init
 NEXT Next
